@@ -517,6 +517,39 @@ static void mpi_runs(report& r)
     vf::script_engine::salt() = 0;
 }
 
+// the uniform default grid for every bin count up to 512 (and a few dimensions): a valid partition, ending at exactly 1
+template <typename T>
+static void uniform_grids(report& r)
+{
+    std::string const tn = vf::type_name<T>();
+    for (sz b = 2; b <= 512; ++b)
+    for (sz d : {sz(1), sz(3)})
+    {
+        std::string const id = tn + " uniform B=" + std::to_string(b) + " d=" + std::to_string(d);
+        if (!r.want(id)) continue;
+        r.eval();
+        hep::vegas_pdf<T> pdf(d, b);
+        for (sz k = 0; k != d; ++k)
+        {
+            auto const x = grid_of(pdf, k);
+            r.state();
+            if (!check_grid(r, x, id, "vegas_pdf(" + std::to_string(d) + ", " + std::to_string(b) + ") dimension " + std::to_string(k), "")) break;
+            // equal widths to rounding
+            for (sz i = 0; i != b; ++i)
+                if (!(std::fabs(static_cast<long double>(x[i + 1]) - static_cast<long double>(x[i]) - 1.0L / b) <= 4 * std::numeric_limits<T>::epsilon()))
+                { r.violate("uniform-grid-not-uniform", id, id + ": bin " + std::to_string(i) + " has width " + vf::dec(x[i + 1] - x[i])); break; }
+            if (b <= 8 || b % 37 == 0) check_icdf(r, x, id);
+        }
+        // a refinement keeps the end points
+        std::vector<T> data(d * b, T(1));
+        data[0] = T(5);
+        auto const np = hep::vegas_refine_pdf(pdf, T(1.5), data);
+        r.transition();
+        for (sz k = 0; k != d; ++k) check_grid(r, grid_of(np, k), id, "refinement of the uniform grid with " + std::to_string(b) + " bins", "");
+        if (b > 8) r.distinct(vf::hash_str(id));
+    }
+}
+
 template <typename T>
 static void for_type(report& r, int ai, bool extras)
 {
@@ -527,6 +560,7 @@ static void for_type(report& r, int ai, bool extras)
         if (r.want_prefix(std::string(vf::type_name<T>()) + " 2d")) two_dim<T>(r);
         if (r.want_prefix(std::string(vf::type_name<T>()) + " run")) real_runs<T>(r, r.a().thorough());
         if (r.want_prefix(std::string(vf::type_name<T>()) + " mpirun")) mpi_runs<T>(r);
+        if (r.want_prefix(std::string(vf::type_name<T>()) + " uniform")) uniform_grids<T>(r);
     }
 }
 
